@@ -102,3 +102,19 @@ def run(ctx):
             sites = [x for x in sites if True]
             lib.must_pass(ctx, '3b every-accepted-operation-is-recorded %s' % pushfn, pb, sites,
                           'every success return of the change-set push has appended the operation (no operation is accepted and dropped)')
+
+    # value iteration reads every visited slot through the log overlay (it sees logged removals, counter changes and reused slots),
+    # so it must also visit the slots that logged-but-not-yet-enacted records APPENDED: the walk is bounded by the fill mark
+    # (advanced when a record is planned), not only by `written` (advanced when the header is enacted). Otherwise a commit shows
+    # up half: its removals and counters are reported, its new values are not.
+    iw = ctx.body('table::ValueTable::iter_while')
+    if iw:
+        rng = [st for bi in iw.normal_blocks() for st in iw.blocks[bi]['s'] if st['k'] == 'assign' and st['r']['k'] == 'agg' and str(st['r']['ak']).endswith('ops::Range')]
+        fl = set()
+        for st in rng:
+            for a in st['r']['a']:
+                if op_place(a) is not None:
+                    fl |= backward_slice(iw, [op_place(a)]).fields
+        ctx.ob('4a iteration-bounded-by-fill-mark', 'K4-provenance', iw.path,
+               'the slot range walked by value iteration derives from ValueTable.filled (slots appended by logged records are visited), not from `written` alone',
+               bool(rng) and '.ValueTable.filled' in fl, 'range derives from %s' % sorted(f for f in fl if 'ValueTable' in f))
